@@ -2,7 +2,7 @@
    Statements only; proofs in ServerAuth_lemmas.v. (Histories with restarts: Props/C04.v.) *)
 From Coq Require Import ZArith List Bool.
 From Coq Require Import String.
-From GCA Require Import Wrap Bytes Codec Amap Timeslot Server ServerInv ServerReach_lemmas ServerAuth_lemmas Skel SkelSpec Skel_lemmas SkelObligations.
+From GCA Require Import Wrap Bytes Codec Amap Timeslot Server ServerInv ServerDisk ServerReach_lemmas ServerAuth_lemmas ServerFull_lemmas Skel SkelSpec Skel_lemmas SkelObligations.
 From GCAgen Require SkelServer.
 Import ListNotations.
 Open Scope Z_scope.
@@ -28,15 +28,17 @@ Section C07.
     snd (register verify st k s) <> Accepted true -> fst (register verify st k s) = st.
   Proof. exact (register_refused_frame verify st k s). Qed.
 
-  Theorem c07_at_most_one ops st : no_restart ops ->
+  (* in EVERY history -- restarts included -- at most one registration is accepted *)
+  Theorem c07_at_most_one ops st : Inv verify st -> Forall op_ok ops ->
     (count_accepted_registrations verify sign stats_sb st ops <= 1)%nat.
-  Proof. exact (at_most_one_registration verify sign stats_sb ops st). Qed.
+  Proof. exact (at_most_one_registration_full verify sign stats_sb ops st). Qed.
 
-  Theorem c07_irreversible ops st : no_restart ops ->
+  (* and once registered the key is never replaced, whatever follows (restarts included) *)
+  Theorem c07_irreversible ops st : Inv verify st -> Forall op_ok ops ->
     gca_avail (mm st) = true ->
     gca_avail (mm (Server.run verify sign stats_sb st ops)) = true /\
     gca (mm (Server.run verify sign stats_sb st ops)) = gca (mm st).
-  Proof. exact (gca_irreversible verify sign stats_sb ops st). Qed.
+  Proof. exact (gca_irreversible_full verify sign stats_sb ops st). Qed.
 
   Theorem c07_no_second_registration ops st k s : no_restart ops -> gca_avail (mm st) = true ->
     register verify (Server.run verify sign stats_sb st ops) k s = (run verify sign stats_sb st ops, Refused).
